@@ -218,5 +218,16 @@ MUTATIONS = [
  dict(id="s-concat-caches-on-self", kind="break", props=["C20"], file=PRE,
       old="        pattern = self._concat_conditional_group()\n        pre = pre._concat_conditional_group()",
       new="        pattern = self._concat_conditional_group()\n        self.__compiled = None\n        pre = pre._concat_conditional_group()"),
+ # ---- exception constructors (G11) and the exported text (F6) -----------------------------------------------------
+ dict(id="x-repeat-message-formats-the-pattern", kind="break", props=["C09"], file="src/pregex/core/exceptions.py",
+      old='''m = f"Pattern \\"{pre.get_pattern()}\\" is non-repeatable."''',
+      new="""m = ('Pattern "' + pre.get_pattern() + '" is non-{}.').format('repeatable')"""),
+ dict(id="h-repeat-message-reworded", kind="harmless", props=["C09", "C04"], file="src/pregex/core/exceptions.py",
+      old='''m = f"Pattern \\"{pre.get_pattern()}\\" is non-repeatable."''',
+      new="""m = 'Pattern "' + pre.get_pattern() + '" cannot be repeated.'"""),
+ dict(id="e-export-keeps-escaping-backslash", kind="break", props=["C11"], file=PRE,
+      old="""r"\\1\\2", self.__pattern)""", new="""r"\\1\\\\\\2", self.__pattern)"""),
+ dict(id="h-export-drop-regex-spelled-with-class", kind="harmless", props=["C11"], file=PRE,
+      old="""[^ -&(-~])", r""", new="""[^ -&(-~]{1})", r"""),
 ]
 MUTATIONS = [m for m in MUTATIONS if isinstance(m, dict)]
